@@ -209,12 +209,6 @@ def render(case, headings=None):
     """PHREEQC input text of a case; USER_PUNCH calls back into the harness and punches per-cell inventories"""
     L = []
     L.append("TITLE c11 generated column")
-    if case.get("convtol", "1e-15"):
-        # the stored totals are the sums over the species of the converged speciation (sum_species), so every
-        # speciation leaves its mass-balance residual (<= convergence_tolerance, relative) in the transported totals;
-        # with the default 1e-8 and thousands of sub-mixes that noise alone reaches the property's 1e-9
-        L.append("KNOBS")
-        L.append(" -convergence_tolerance %s" % case.get("convtol", "1e-15"))
     for k in sorted(case["sols"], key=int):
         s = case["sols"][k]
         L.append("SOLUTION %s" % k)
